@@ -24,7 +24,12 @@ def fx(name, deps=(), scope=None):
 
 
 ROOT_CONF = HDR + fx("fa", scope="session") + fx("fb") + fx("fc", scope="module")
-PKG_CONF = HDR + fx("fd")
+PKG_CONF = "from .helpers_mod import *\n" + HDR + fx("fd")
+
+
+def helpers_text(name):
+    """the module pkg/conftest.py star-imports: one function-scoped fixture whose NAME changes"""
+    return HDR + fx(name) + fx("hconst", scope="session")
 EXCL_CONF = HDR + fx("ex_fix")
 
 
@@ -51,7 +56,9 @@ def pyproject_variants():
 
 def doc_versions(rng, n):
     """sequence of (target, text, label); target in doc/pkg_conf/root_conf"""
-    parts = {"und": False, "und2": False, "cycle": False, "self": False, "mismatch": False, "mismatch_ok": False}
+    parts = {"und": False, "und2": False, "cycle": False, "self": False, "mismatch": False, "mismatch_ok": False,
+             "mismatch2": False, "mismatch_h": False, "mismatch_h2": False}
+    hname = ["fh"]
     pkg_has_fd = True
     root_has_fa = True
     steps = []
@@ -66,6 +73,12 @@ def doc_versions(rng, n):
             s += fx("wide", ["fb"], scope="session")
         if parts["mismatch_ok"]:
             s += fx("wide_ok", ["fa"], scope="session")
+        if parts["mismatch2"]:
+            s += fx("wide2", ["fb", "fd", "fa"], scope="session")       # two narrower dependencies on one fixture
+        if parts["mismatch_h"]:
+            s += fx("wide_h", ["fh"], scope="session")                  # dependency supplied through the conftest's import
+        if parts["mismatch_h2"]:
+            s += fx("wide_h2", ["fh2", "hconst"], scope="session")
         s += "def test_ok(fa, fd):\n    pass\n\n"
         if parts["und"]:
             s += "def test_und():\n    v = fb\n    assert fb.x\n\n"
@@ -82,8 +95,21 @@ def doc_versions(rng, n):
         elif r < 0.65:
             steps.append(("doc", render() + "def broken(:\n", "break_syntax"))
             steps.append(("doc", render(), "repair"))
-        elif r < 0.75:
+        elif r < 0.72:
             steps.append(("doc", render(), "resend"))
+        elif r < 0.80:
+            # the imported module renames its fixture (the conftest's own text does not change)
+            hname[0] = "fh2" if hname[0] == "fh" else "fh"
+            steps.append(("helpers", helpers_text(hname[0]), "helpers_rename_to_" + hname[0]))
+            steps.append(("doc", render(), "resend_after_helpers_edit"))
+        elif r < 0.84:
+            # two versions back to back (a slow one first): the last publish must belong to the last text
+            k = rng.choice(list(parts))
+            parts[k] = not parts[k]
+            big = render() + "".join(f"def test_pad{i}(fa, fd):\n    x{i} = [fa, fd]\n    return x{i}\n\n" for i in range(1500))
+            parts[k] = not parts[k]
+            steps.append(("doc", big, "burst_first"))
+            steps.append(("doc", render(), "burst_second"))
         elif r < 0.88:
             pkg_has_fd = not pkg_has_fd
             steps.append(("pkg_conf", PKG_CONF if pkg_has_fd else HDR, "pkg_conf_" + ("add_fd" if pkg_has_fd else "remove_fd")))
@@ -135,13 +161,14 @@ def run(ctx):
         for si in range(n_sessions):
             label, raw_list, toml, disabled, has_exclude = variants[si % len(variants)]
             root = ctx.scratch(f"s{si}")
-            files = {"conftest.py": ROOT_CONF, "pkg/conftest.py": PKG_CONF, "pkg/test_doc.py": HDR, "excluded_dir/conftest.py": EXCL_CONF,
+            files = {"conftest.py": ROOT_CONF, "pkg/conftest.py": PKG_CONF, "pkg/test_doc.py": HDR, "pkg/helpers_mod.py": helpers_text("fh"),
+                     "pkg/__init__.py": "", "elsewhere/conftest.py": HDR + fx("fh") + fx("fh2"), "excluded_dir/conftest.py": EXCL_CONF,
                      "excluded_dir/test_e.py": "def test_e(ex_fix):\n    pass\n"}
             if toml is not None:
                 files["pyproject.toml"] = toml
             write_tree(root, files)
             paths = {"doc": os.path.join(root, "pkg/test_doc.py"), "pkg_conf": os.path.join(root, "pkg/conftest.py"),
-                     "root_conf": os.path.join(root, "conftest.py")}
+                     "root_conf": os.path.join(root, "conftest.py"), "helpers": os.path.join(root, "pkg/helpers_mod.py")}
             srv = LSP(srv_bin(), root, locklog=os.path.join(ctx.scratch_root, "lock_srv.log"))
             db = vh.new_db()
             try:
@@ -170,9 +197,18 @@ def run(ctx):
                     before = srv.seq
                     (srv.did_change if tgt in opened else srv.did_open)(p, text)
                     opened.add(tgt)
-                    got = srv.wait_diagnostics(p, before, timeout=20)
                     vh.call(op="analyze", db=db, path=p, text=text)
                     hist.append((tgt, op))
+                    if op == "burst_first":
+                        continue                      # no waiting: the next version follows immediately
+                    got = srv.wait_diagnostics(p, before, timeout=20)
+                    if op == "burst_second":
+                        # both versions publish; quiesce (a request is answered after the notifications before it were
+                        # handled), then the LAST notification for the document is the one the editor shows
+                        srv.document_symbol(p)
+                        srv.pump(0.3)
+                        allp = srv.diag.get(path_to_uri(p), [])
+                        got = allp[-1][1] if allp else None
                     ctx.judged()
                     if got is None:
                         ctx.violation({"kind": "no-publish-after-change", "variant": label, "op": op}, {"history": hist}, files=files | {"doc.py": text})
